@@ -946,6 +946,8 @@ def array_try_from(m, cfg, f, args, t):
     n = int(ra[-1]) if ra and ra[-1].isdigit() else None
     if isinstance(s, Slice):
         nm = s.data if s.base is None else repr(s.base)
+        if n is None and ra and ra[-1].isidentifier() and s.len == Int.sym('const:' + ra[-1]):
+            return ok(Atom('array(%s)' % nm))   # slice of exactly N bytes into [u8; N]
         arrv = BeBytes(Atom('bytes(%s)' % nm), n, 'raw') if n is not None else Atom('array(%s)' % nm)
         if n is not None and isinstance(s.len, Int):
             return narrow_set(m, cfg, s.len, ((n, n),), lambda _: ok(arrv), lambda: err(Atom('TryFromSliceError')))
